@@ -69,6 +69,12 @@ def run(e: Engine, rep: Report):
     rep.rule('R8.10', 'state of Extensions derived from the set is '
              'refreshed by every method that changes the set')
     r810(e, rep)
+    rep.rule('R8.11', '= C07-R7.8: the flags the AUTH gate tests by '
+             'truthiness (have_mailfrom, authed, ehlo_as) are set to values '
+             'that are truthy whenever the command was accepted (a null '
+             'reverse-path stored in have_mailfrom lets AUTH run inside a '
+             'transaction)')
+    c07.r78(e, rep, 'R8.11')
     rep.floor('R8.1', 1, 'socket swap sites')
 
 
